@@ -126,7 +126,9 @@ fn run_table(rep: &mut Report, t: &Table, specs: &[FilterSpec], also_update: boo
         }
         if let Err(e) = check_one(t, f, also_update) {
             let rows = rows_json(t);
-            rep.violate(format!("rows={rows} spec={}", spec_json(f)), e, json!({"rows": rows, "spec": spec_json(f), "update": also_update}));
+            // keys are recorded too: the stored row order (= key order) is part of the case
+            let keys: Vec<&String> = t.rows.keys().collect();
+            rep.violate(format!("rows={rows} spec={}", spec_json(f)), e, json!({"rows": rows, "keys": keys, "tk": t.k, "spec": spec_json(f), "update": also_update}));
         }
     }
 }
@@ -139,7 +141,13 @@ pub fn replay(case: &Value) -> Result<Option<String>, String> {
         return Ok(cli_one(&t, &spec_from(&case["spec"])).err());
     }
     let rows: Vec<Vec<u8>> = case["rows"].as_array().ok_or("rows")?.iter().map(|r| r.as_str().unwrap().as_bytes().to_vec()).collect();
-    let t = table_of(&rows);
+    let mut t = table_of(&rows);
+    if let (Some(keys), Some(tk)) = (case["keys"].as_array(), case["tk"].as_u64()) {
+        if keys.len() == rows.len() {
+            t.k = tk as usize;
+            t.rows = keys.iter().zip(rows.iter()).map(|(k, r)| (k.as_str().unwrap_or("").to_string(), r.clone())).collect();
+        }
+    }
     Ok(check_one(&t, &spec_from(&case["spec"]), case["update"].as_bool().unwrap_or(true)).err())
 }
 
